@@ -34,7 +34,6 @@ def CacheOK (s : FState) : Prop :=
 
 /-- the consumer's pending list `P` is the chain from the LIB (exclusive) to the last block sent -/
 structure Inv (s : FState) (P : List Id) : Prop where
-  noInit : s.includeInit = false
   libNe : s.db.libRef.id ≠ ""
   wf : WfEntries s.db
   heights : Heights s.db
@@ -603,7 +602,7 @@ theorem processIrr_st (cfg : Config) (a : Acc) (seg : List Entry) (head : Ref) (
       | some l => exact ⟨l.blk.ref, by simp only; rw [hph]⟩
 
 theorem inv_seen (s : FState) (Q : List Id) (x : Ref) (h : Inv s Q) : Inv { s with lastLIBSeen := x } Q :=
-  ⟨h.noInit, h.libNe, h.wf, h.heights, h.path, h.libNotin, h.pSent, h.topSome, h.topNone, h.cache, h.initOk⟩
+  ⟨h.libNe, h.wf, h.heights, h.path, h.libNotin, h.pSent, h.topSome, h.topNone, h.cache, h.initOk⟩
 
 theorem irrEvents_sb (cfg : Config) (hirr : cfg.matches .irreversible = true) (seg : List Entry) (head : Ref)
     (actual : Id → Option Blk) :
@@ -776,7 +775,7 @@ theorem advance_inv (cfg : Config) (hirr : cfg.matches .irreversible = true) (a 
       cases hfx : a.st.db.find x with
       | none => rw [hfx] at this; cases this
       | some e => exact ⟨e, rfl⟩
-    refine ⟨hI.noInit, by simp only [withDb, hlibfin]; exact hRne, ?_, ?_, ?_, ?_, ?_, ?_, ?_, ?_, ?_⟩
+    refine ⟨by simp only [withDb, hlibfin]; exact hRne, ?_, ?_, ?_, ?_, ?_, ?_, ?_, ?_, ?_⟩
     · simp only [withDb]; rw [← hdb']; exact wf_purge _ _ _ hI.wf
     · simp only [withDb]; rw [← hdb']; exact heights_movePurge _ hI.wf hI.heights R cfg.kept er hfer hnumR
     · simp only [withDb, hlibfin]; rw [← hdb']; exact isPath_movePurge _ _ _ _ _ hpq2 hq2high
